@@ -584,7 +584,11 @@ def correspondence(ctx):
     if cf.exists():
         corpus = [json.loads(l) for l in cf.read_text().splitlines() if l.strip()]
     run_fast(ctx, WITNESSES + corpus + grid_cases() + [gen_case(ctx.rng) for _ in range(ctx.pick(1500, 25000))])
-    run_full(ctx, WITNESSES + full_sample(ctx.rng, ctx.pick(120, 2500)))
+    full_corpus = []
+    ff = core.VERIF / "corpus" / "template" / "C26_full.jsonl"
+    if ff.exists():
+        full_corpus = [json.loads(l) for l in ff.read_text().splitlines() if l.strip()]
+    run_full(ctx, WITNESSES + full_corpus + full_sample(ctx.rng, ctx.pick(120, 2500)))
 
 
 def search(ctx):
